@@ -17,6 +17,20 @@ Theorem no_dangling_reach c hs r n :
     gone_in (w_st (reach c hs)) t.
 Proof. intro Hff. exact (no_dangling_any (reach c hs) r n (LIx_reach c hs Hff)). Qed.
 
+Theorem presented_resolves_reach_pre c hs r n k0 rest :
+  Forall ff_hop hs -> rq_plan r = [] -> rq_crash r = Some n ->
+  no_deletes (ev_prefix (ob_evs (snd (step (reach c hs) (HReq (nocrash r))))) n) ->
+  CrashChain.spath (fun _ => True) (store (w_st (reach c hs))) k0 rest ->
+  exists tl rend,
+    CrashChain.spath (fun _ => True) (store (w_st (fst (step (reach c hs) (HReq r))))) k0 (rest ++ tl) /\
+    Forall (fresh_from_n (supply (w_st (reach c hs)))) tl /\
+    lookup (store (w_st (fst (step (reach c hs) (HReq r))))) (last (rest ++ tl) k0) = Some rend /\ r_ref rend = None /\
+    (lookup (store (w_st (reach c hs))) (last (rest ++ tl) k0) = Some rend \/
+     In (EvSave (last (rest ++ tl) k0) rend true) (ev_prefix (ob_evs (snd (step (reach c hs) (HReq (nocrash r))))) n)).
+Proof.
+  intro Hff. exact (chain_resolves_stop_record_pre (reach c hs) r n k0 rest (LIx_reach c hs Hff) (graves_drawn_reach c hs Hff)).
+Qed.
+
 Theorem presented_resolves_reach c hs r n k0 rest :
   Forall ff_hop hs -> rq_plan r = [] -> rq_crash r = Some n ->
   no_deletes (ob_evs (snd (step (reach c hs) (HReq (nocrash r))))) ->
@@ -29,6 +43,22 @@ Theorem presented_resolves_reach c hs r n k0 rest :
      In (EvSave (last (rest ++ tl) k0) rend true) (ob_evs (snd (step (reach c hs) (HReq (nocrash r)))))).
 Proof.
   intro Hff. exact (chain_resolves_stop_record (reach c hs) r n k0 rest (LIx_reach c hs Hff) (graves_drawn_reach c hs Hff)).
+Qed.
+
+Theorem presented_data_reach_pre c hs r n k0 rest rn d0 :
+  Forall ff_hop hs -> rq_plan r = [] -> rq_crash r = Some n ->
+  no_deletes (ev_prefix (ob_evs (snd (step (reach c hs) (HReq (nocrash r))))) n) ->
+  presents (reach c hs) r = CKey k0 ->
+  CrashChain.spath (fun _ => True) (store (w_st (reach c hs))) k0 rest ->
+  lookup (store (w_st (reach c hs))) (last rest k0) = Some rn ->
+  (forall o ob, In (last rest k0, o) (cache (w_st (reach c hs))) -> hget (w_st (reach c hs)) o = Some ob -> r_ref (o_rec ob) = None ->
+     CrashFault3.dat (o_rec ob) = CrashFault3.dat rn) ->
+  (forall id0 rc0, ob_start (snd (step (reach c hs) (HReq (nocrash r)))) = Some (id0, rc0) -> r_data rc0 = Some d0) ->
+  CrashChain.resolves_chain
+    (fun rd => CrashFault3.dat rd = CrashFault3.dat rn \/ In (CrashFault3.dat rd) (script_data d0 (rq_script r)))
+    (store (w_st (fst (step (reach c hs) (HReq r))))) k0.
+Proof.
+  intro Hff. exact (presented_data_pre (reach c hs) r n k0 rest rn d0 (LIx_reach c hs Hff) (graves_drawn_reach c hs Hff)).
 Qed.
 
 Theorem presented_data_reach c hs r n k0 rest rn d0 :
